@@ -14,7 +14,8 @@ func init() {
 		ID: "C08",
 		Explanation: "Structural necessary conditions of 'stream ids are unique while in use, never 0 or out of range, and all get used': R1 the allocator's shared words, counter and offset are accessed only through sync/atomic outside the constructor; R2 an id is claimed only by a successful compare-and-swap whose new value is derived from the current old value, on a bit tested clear in that old value, inside a retry loop that re-tests the same bit after reloading, and the returned id is built from the same word and bit; " +
 			"R3 the in-use count changes by +1 only after a successful claiming CAS and by -1 only after a successful clearing CAS, and Clear returns false without decrementing when the bit is already clear; R4 range by construction: capacities 128/32768 by protocol version, word count = capacity/64, exactly the bit of id 0 pre-set, word indexes reduced modulo the word count, id = word*64 + bit with bit < 64; R5 only exec allocates and only releaseStream clears (=C01.R4)." +
-			" R2 also: no plain atomic store / add / swap on a bitmap word outside the constructor; R6 GetStream answers 'no stream' only through the normal end of the loop over the words, never from the lagging in-use counter.",
+			" R2 also: no plain atomic store / add / swap on a bitmap word outside the constructor; R6 GetStream answers 'no stream' only through the normal end of the loop over the words, never from the lagging in-use counter." +
+			" R6 also: the scan makes one step per word for every value of the rotating start (0..N, a range over the words, or S..S+N with S known below N).",
 		NotDecided: "uniqueness and progress over all interleavings of the atomic steps (linearizability of the lock-free algorithm); exact availability counts under races.",
 		Rules: []*Rule{
 			{ID: "C08.R1", Floor: 8, Doc: "streams/inuseStreams/offset only through sync/atomic outside New", Run: c08r1},
